@@ -166,7 +166,7 @@ func annotation(r *rand.Rand) string {
 	if r.Intn(4) == 0 {
 		// text that looks like syntax, and text outside ASCII; a no-break space inside a word is a character like any other
 		return []string{"quoted \"word\" here", "(parens) {braces} [brackets]", "back\\slash and /slash/ and a*b", "ünï cödé 日本語 😀",
-			"no\u00a0break inside", "100% sure & more; colon: comma, dot.", "@ref-like @t0 and JSIGHT GET 200", "a 'single' `tick` ~ ^ | < > = + ! ?", "* starred *", "ends with a star *", "/ slash first and last /"}[r.Intn(11)]
+			"no\u00a0break inside", "100% sure & more; colon: comma, dot.", "@ref-like @t0 and JSIGHT GET 200", "a 'single' `tick` ~ ^ | < > = + ! ?", "* starred *", "ends with a star *", "/ slash first and last /", "two stars at the end **", "three ***", "star*", "** banner **", "*"}[r.Intn(16)]
 	}
 	return strings.Title(wordList[r.Intn(len(wordList))]) + " " + wordList[r.Intn(len(wordList))] + "."
 }
